@@ -100,6 +100,10 @@ pub struct LinkCfg {
     pub window: usize,
     pub latency_ms: u64,
     pub drop_after_close: bool,
+    /// which endpoint plays the WebSocket client (waits for the transport to close after the closing
+    /// handshake): 0 = none, 1 = endpoint 0, 2 = endpoint 1
+    #[serde(default)]
+    pub ws_client: u8,
 }
 #[derive(Serialize, Deserialize, Clone, Debug, PartialEq)]
 pub enum WOp {
@@ -239,7 +243,7 @@ impl Plan {
     pub fn base() -> Plan {
         Plan {
             eps: [EpCfg::default(), EpCfg::default()],
-            link: LinkCfg { window: 1 << 20, latency_ms: 0, drop_after_close: false },
+            link: LinkCfg { window: 1 << 20, latency_ms: 0, drop_after_close: false, ws_client: 0 },
             weights: [4; NCLS],
             streams: vec![],
             dg_tx: vec![],
@@ -822,6 +826,7 @@ async fn run_async(plan: Plan, sched: Sched, record: bool) -> DuoRun {
     };
     let link = Link::new(plan.link.window.max(1), plan.link.latency_ms, seq.clone(), lat_seed ^ 0x1a7);
     link.lock().unwrap().drop_data_after_close_sent = plan.link.drop_after_close;
+    link.lock().unwrap().waits_for_transport_close = [plan.link.ws_client == 1, plan.link.ws_client == 2];
     let world = Rc::new(RefCell::new(LinkWorld::new(link.clone())));
     let mut sim = Sim::new(&sched, plan.weights, record, world.clone(), seq.clone());
     let led: Led = Rc::new(RefCell::new(Ledger::default()));
